@@ -117,8 +117,8 @@ class OptCase:
             return C.enc_rats(self.costs.tolist())
         return C.enc_rats([0] * n)
 
-    def req_replay(self, offsets, delta):
-        return f"replay {C.enc_mat(self.B)} {self.costs_tokens()} {self.cfg_tokens()} {C.enc_rat(delta)} {C.enc_nats(offsets)}"
+    def req_replay(self, offsets, delta, verbose=False):
+        return f"replay{'v' if verbose else ''} {C.enc_mat(self.B)} {self.costs_tokens()} {self.cfg_tokens()} {C.enc_rat(delta)} {C.enc_nats(offsets)}"
 
     def req_rank(self):
         return f"rank {C.enc_mat(self.B)} {self.costs_tokens()} {self.cfg_tokens()}"
@@ -136,9 +136,13 @@ def parse_replay(resp):
     p = [int(x) for x in left.split()]
     vs = []
     for tok in right.split():
-        ok, ch, n2, msk, best, uniq = tok.split(",")
-        vs.append({"ok": ok == "1", "chosen": int(ch), "n2": C.dec_rat(n2), "masked": msk == "1",
-                   "best": int(best), "uniq": uniq == "1"})
+        parts = tok.split(",")
+        ok, ch, n2, msk, best, uniq = parts[:6]
+        v = {"ok": ok == "1", "chosen": int(ch), "n2": C.dec_rat(n2), "masked": msk == "1",
+             "best": int(best), "uniq": uniq == "1"}
+        if len(parts) > 6:
+            v["cand_n2"] = [C.dec_rat(x) for x in parts[6].split(":")] if parts[6] else []
+        vs.append(v)
     return p, vs
 
 
